@@ -23,6 +23,10 @@ M = [
  ('C04-c', 'C04', 'core/letter_id_generator.py', '        value = self.index\n        self.index += 1', '        value = self.index\n        self.index += 1 if value != 3 else 0', 1),
  ('C04-d', 'C04', 'core/connection_manager.py', '        connection = self.open_connections.get(connection_id)\n        assert connection, ', '        connection = self.connection_list[-1] if self.connection_list else None\n        assert connection, ', 1),
  ('C04-e', 'C04', 'core/connection_manager.py', '            del self.open_connections[connection_id]\n', '', 1),
+ ('C10-a', 'C10', 'backends/gdb_plugin/plugin.py', "        elif not self.state.paused():\n            gdb.execute('continue')", "        else:\n            gdb.execute('continue')", 1),
+ ('C10-c', 'C10', 'backends/gdb_plugin/plugin.py', '        if self.state.paused():\n            self.state.resume_requested()\n        if not connection_id', '        if not connection_id', 1),
+ ('C10-d', 'C10', 'frontends/tui/terminal_ui.py', 'while self.state.paused() and not self.state.should_quit():', 'while self.state.paused() or not self.state.should_quit():', 1),
+ ('C15-a', 'C15', 'backends/gdb_plugin/plugin.py', "            if message.name == 'get_registry':\n                is_server = not message.sent\n            self.open_connection", "            if message.name == 'get_registry':\n                is_server = message.sent\n            self.open_connection", 1),
  ('C16-a', 'C16', 'frontends/tui/controller.py', 'if delta > 1.0:', 'if delta >= 1.0:', 1),
  ('C16-b', 'C16', 'frontends/tui/controller.py', "                ')')\n            self.last_shown_timestamp = None", "                ')')", 1),
  ('C06-a', 'C06', 'frontends/tui/controller.py', 'if self.current_connection is None or connection == self.current_connection:', 'if True:', 1),
